@@ -141,7 +141,7 @@ Eval vm_compute in (map (fun es => flat (Jres J_state (load_raw check ocfg_post_
         mism.append({'what': 'shipped file load', 'file': os.path.basename(f),
                      'impl': vlib.unflat(x), 'model': vlib.unflat(g)})
   # 2. generated histories
-  n = 1500 if tier == 'thorough' else 300
+  n = 6000 if tier == 'thorough' else 600
   hist = cr.gen_histories(rng, 'quick', n)
   kinds = {}
   for label, ops, q in hist:
